@@ -69,6 +69,8 @@ def py_apply(f, vs):
         return _overlay(vs[0], vs[1])
     if f == "size" and len(vs) == 1 and isinstance(vs[0], (list, dict)):
         return len(vs[0])
+    if f == "at0" and len(vs) == 1 and isinstance(vs[0], list) and vs[0]:
+        return vs[0][0]
     if f == "in" and len(vs) == 2 and isinstance(vs[0], str) and isinstance(vs[1], dict):
         return vs[0] in vs[1]
     return ERR
@@ -96,6 +98,8 @@ def oracle(case, obs, prep=None):
     definition reconciled on its own with the step's inputs as trigger): not Ok ⇒ the step is not Ok either and
     every step referencing it is a dependency-skip without any Logic evaluation."""
     bad = []
+    if obs.get("rejected"):
+        return [("*", REJECTED + "; ".join(obs["rejected"]))]
     if obs.get("raised"):
         return [("*", f"reconcile_workflow raised {obs['raised']}")]
     steps = gen_wf.main_steps(case)
@@ -277,10 +281,15 @@ def oracle(case, obs, prep=None):
 
 # --------------------------------------------------------------------------- one case through both sides
 
+REJECTED = "the generated workflow is well-formed (every dependency names an earlier step, every definition it needs is offered) but prepare does not make it ready: "
+
+
 def observe(case):
+    """(prep, obs); a well-formed generated definition that the tree's prepare rejects is the TREE's behaviour, not
+    infrastructure trouble: then nothing is run and obs = {"rejected": [...]}"""
     prep = wf_run.prepare_case(case)
     if prep.problems:
-        raise Infra(f"generated definitions rejected by prepare: {prep.problems[:2]}")
+        return prep, {"rejected": [str(x)[:300] for x in prep.problems[:3]]}
     wf_run.cool_lookups(prep)        # functions prepared without `plural` discover it in this pass
     return prep, wf_run.run_prepared(prep)
 
@@ -331,6 +340,10 @@ def check_case(ck, case, ans, tag):
     steps = gen_wf.main_steps(case)
     ck.count(f"steps:{min(len(steps), 20)}")
     ck.count(f"src:{tag}")
+    if obs.get("rejected"):
+        small = shrink(case, lambda c: bool(observe(c)[1].get("rejected"))) if len(ck.violations) < 3 else case
+        ck.violate({"case": compact(small)}, oracle(small, observe(small)[1])[0][1])
+        return obs
     if obs.get("raised") is None:
         ck.count(f"overall:{obs['overall']['c']}")
         for c in obs["classes"].values():
@@ -391,7 +404,8 @@ def exhaustive(ck, drv, max_n):
             base = gen_wf.shape_case(deps)
             prep = wf_run.prepare_case(base)
             if prep.problems:
-                raise Infra(f"shape workflow rejected: {prep.problems[:2]}")
+                ck.violate({"case": compact(base)}, REJECTED + "; ".join(str(x)[:300] for x in prep.problems[:3]))
+                continue
             cases = [gen_wf.with_assignment(base, cl)
                      for cl in itertools.product(gen_wf.CHAMELEON_CLASSES, repeat=n)]
             answers = drv.ask([gen_wf.to_req(c) for c in cases])
@@ -484,6 +498,8 @@ def run(tier: str) -> int:
                            ("falsy-value-state", gen_wf.gen_falsy_state_case, 30, 400),
                            ("shared-dependency-value", gen_wf.gen_alias_case, 40, 400),
                            ("digit-label", gen_wf.gen_digit_label_case, 30, 300),
+                           ("unnameable-access", gen_wf.gen_unnameable_case, 40, 400),
+                           ("cluster-scoped", gen_wf.gen_cluster_scoped_case, 15, 150),
                            ("non-json-values", gen_wf.gen_typed_value_case, 25, 300),
                            ("gated-kind-discovery", gen_wf.gen_gated_lookup_case, 30, 300),
                            ("steps-as-a-whole", gen_wf.gen_whole_steps_case, 15, 150)):
